@@ -84,7 +84,18 @@ impl Property for C02 {
             })
         });
         let shapes = crate::sigshapes::corpus().iter().map(|r| Case::Wire(WireCase { bytes: r.bytes.clone(), label: format!("sigshape/{}", r.shape), has_custom: false }));
-        Box::new(shapes.chain(it))
+        let custom = [crate::keys::FamId::Var, crate::keys::FamId::Wide, crate::keys::FamId::Tiny, crate::keys::FamId::Mid, crate::keys::FamId::Nano, crate::keys::FamId::Big, crate::keys::FamId::Null]
+            .into_iter()
+            .flat_map(|fam| {
+                let keys = crate::gen::history::exhaustive_keys(fam);
+                [1u64, 127, 65536].into_iter().flat_map(move |seq| {
+                    let keys = keys.clone();
+                    [vec![], vec![(b"udp".to_vec(), crate::refmodel::rlp::encode_uint(9))], vec![(b"x".to_vec(), crate::refmodel::rlp::encode_str(&[7u8; 60]))]].into_iter().map(move |pairs| {
+                        Case::Hist(crate::case::History { fam, keys: keys.clone(), init: crate::case::Init::Decoded { seq, pairs }, ops: vec![], fault_at: None, alt_keys: vec![] })
+                    })
+                })
+            });
+        Box::new(shapes.chain(it).chain(custom))
     }
     fn fuzz_plans(&self) -> Vec<(&'static str, u64)> {
         vec![("wire_struct", 20000), ("wire_raw", 30000)]
@@ -95,6 +106,25 @@ impl Property for C02 {
     fn check(&self, case: &Case, st: &mut Stats) -> Result<(), String> {
         let w = match case {
             Case::Wire(w) => w,
+            Case::Hist(h) => {
+                // well-formed records of the CUSTOM key types (signed by the harness with the scheme's own
+                // signer: signatures of 0, 1, 6, 50..61, 64.. bytes, keys of 1..130 bytes) are accepted too
+                struct V0;
+                impl crate::exec::Visitor for V0 {
+                    fn step<K: crate::keys::Fam>(&mut self, cx: &crate::exec::StepCx<K>) -> Result<(), String> {
+                        match (cx.idx, cx.res) {
+                            (0, crate::exec::CallRes::DecodeErr(e)) => Err(format!("decode rejects a well-formed record of the custom scheme {}: {e}", cx.h.fam.name())),
+                            (0, crate::exec::CallRes::Panic(p)) => Err(format!("decode panicked on a well-formed record of the custom scheme {}: {p}", cx.h.fam.name())),
+                            _ => Ok(()),
+                        }
+                    }
+                }
+                st.evals(1);
+                crate::exec::run_history(h, false, &mut V0)?;
+                st.label("custom-scheme-record");
+                st.nontrivial(h);
+                return Ok(());
+            }
             _ => return Err("C02: wrong case type".into()),
         };
         let bl = base_label(&w.label).to_string();
